@@ -96,7 +96,7 @@ def _work_any(job):
     return _work_cli(job[1:]) if job[0] == "cli" else _work(job[1:])
 
 
-def discharge(obls, timeout_ms=20000, jobs=None, fallback=True):
+def _discharge_base(obls, timeout_ms=20000, jobs=None, fallback=True):
     """stage 1: short budget, definitions-last order; stage 2: the other two assertion orders (solver heuristics are
     order sensitive); stage 3: full budget; stage 4: cvc5 / z3-4.8 on the SMT-LIB text"""
     jobs = jobs or int(os.environ.get("PYVC_JOBS", min(16, os.cpu_count() or 4)))
@@ -156,3 +156,11 @@ def discharge(obls, timeout_ms=20000, jobs=None, fallback=True):
         r["obligation"] = ob
         out.append(r)
     return out
+
+
+def discharge(obls, timeout_ms=20000, jobs=None, fallback=True):
+    """all stages of _discharge_base, then the seed/order portfolio (pyvc/portfolio.py) on what is still unknown"""
+    from . import portfolio
+
+    out = _discharge_base(obls, timeout_ms, jobs, fallback)
+    return portfolio.rescue(out, to_smt2, timeout_ms, jobs) if fallback else out
